@@ -1,7 +1,60 @@
-import TjdModel.Agg.Others
+/-
+  C09 — Linear under scaling: each gradient weighs in proportionally to its norm.
+
+  PROPERTY THEOREMS ONLY (statements fixed; helper lemmas in TjdLemmas/EquivLemmas.lean).
+  `scaleRows c J = diag(c) J`.  UPGrad's quantitative defect bound (const·sqrt(reg_eps)·s·|w|) is NOT
+  proved: it is measured by the check (DESIGN §8).
+-/
+import Mathlib.Algebra.Order.Field.Basic
+import TjdModel.Agg.Spec2
+import TjdLemmas.EquivLemmas
+import TjdProps.C18
 namespace Tjd.Props.C09
 open Tjd Tjd.Agg
 
-theorem placeholder_rejects (k : AggKind) (f : Bool) : rejects k [] f = true := by simp [rejects]
+variable {α : Type} [Field α] [LinearOrder α] [IsStrictOrderedRing α]
+
+/-- a combination of the rows of `diag(c) J` with weights `w` is the combination of the rows of `J` with
+    weights `c ⊙ w` -/
+theorem combine_scaleRows (J : Mat α) (m n : Nat) (hJ : MatWF J m n) (c w : Vec α) (hc : c.length = m)
+    (hw : w.length = m) :
+    combine n (scaleRows c J) w = combine n J (List.zipWith (· * ·) c w) := by
+  sorry
+
+/-- aggregators whose weights do not depend on the matrix (Mean, Sum, Constant, Random for a fixed
+    draw) are linear under scaling: `A(diag(a c₁ + b c₂) J) = a A(diag(c₁) J) + b A(diag(c₂) J)` -/
+theorem fixed_weights_linear (J : Mat α) (m n : Nat) (hJ : MatWF J m n) (w c₁ c₂ : Vec α) (a b : α)
+    (hw : w.length = m) (h₁ : c₁.length = m) (h₂ : c₂.length = m) :
+    combine n (scaleRows (vadd (smul a c₁) (smul b c₂)) J) w =
+      vadd (smul a (combine n (scaleRows c₁ J) w)) (smul b (combine n (scaleRows c₂ J) w)) := by
+  sorry
+
+/-- PCGrad in vector space: scaling row `i` by `c_i > 0` (and the other rows by positive factors) scales
+    the `i`-th projected gradient by `c_i` — conflict tests are sign-invariant, projections direction-only -/
+theorem pcRow_scale (J : Mat α) (m n : Nat) (hJ : MatWF J m n) (c : Vec α) (hc : c.length = m)
+    (hpos : ∀ x ∈ c, 0 < x) (i : Nat) (hi : i < m) (perm : List Nat) (hp : ∀ j ∈ perm, j < m) :
+    pcRow (scaleRows c J) i perm = smul (c.getD i 0) (pcRow J i perm) := by
+  sorry
+
+/-- hence PCGrad (for fixed projection orders) is linear under scaling -/
+theorem pcgrad_linear_under_scaling (J : Mat α) (m n : Nat) (hJ : MatWF J m n) (c : Vec α)
+    (hc : c.length = m) (hpos : ∀ x ∈ c, 0 < x) (perms : List (List Nat))
+    (hp : ∀ p ∈ perms, ∀ j ∈ p, j < m) :
+    combine n (scaleRows c J) (pcgradWeights (gram (scaleRows c J)) perms).1 =
+      vsum n ((List.range m).map fun i => smul (c.getD i 0) (pcRow J i (perms.getD i []))) := by
+  sorry
+
+/-- ConFIG: the unit rows, hence `best`, do not change under positive row scaling (row norms scale along);
+    the length factor `Σ_i c_i ⟨j_i, û⟩` is linear in `c` -/
+theorem config_linear_under_scaling (J : Mat α) (m n : Nat) (hJ : MatWF J m n) (d w c₁ c₂ : Vec α)
+    (a b : α) (hd : d.length = m) (h₁ : c₁.length = m) (h₂ : c₂.length = m)
+    (hp₁ : ∀ x ∈ c₁, 0 < x) (hp₂ : ∀ x ∈ c₂, 0 < x) (ha : 0 < a) (hb : 0 < b)
+    (x₁ x₂ x₃ : Vec α)
+    (e₁ : configVec (scaleRows c₁ J) (List.zipWith (· * ·) c₁ d) w n = some x₁)
+    (e₂ : configVec (scaleRows c₂ J) (List.zipWith (· * ·) c₂ d) w n = some x₂)
+    (e₃ : configVec (scaleRows (vadd (smul a c₁) (smul b c₂)) J)
+            (List.zipWith (· * ·) (vadd (smul a c₁) (smul b c₂)) d) w n = some x₃) :
+    x₃ = vadd (smul a x₁) (smul b x₂) := by
+  sorry
 
 end Tjd.Props.C09
